@@ -323,4 +323,13 @@ def r04_decode(ctx):
     ctx.borrow(c01.r01_3, 'R04.6')
 
 
-RULES = [('R04.6', r04_decode), ('R04-transitions', r04_transitions), ('R04-init', r04_init), ('R04-guard', r04_guard), ('R04.5', r04_parser)]
+def r04_valid(ctx):
+    """Every message it yields is a valid message: valid by the library's own checks, which therefore have to accept exactly the
+    values the decoder can produce - channel 0..15, data 0..127, 14-bit ranges (check domains, shared with C01 R01.1).  The
+    parser builds messages without running the checks, so a check that is too narrow makes it hand out messages the rest of the
+    library (copy, str round trip, the constructor) refuses."""
+    from . import c01
+    ctx.borrow(c01.r01_1, 'R04.7')
+
+
+RULES = [('R04.7', r04_valid), ('R04.6', r04_decode), ('R04-transitions', r04_transitions), ('R04-init', r04_init), ('R04-guard', r04_guard), ('R04.5', r04_parser)]
